@@ -17,7 +17,7 @@ import (
 )
 
 func init() {
-	factFns = append(factFns, c18Facts, c18LimiterFacts)
+	factFns = append(factFns, c18Facts, c18LimiterFacts, c18WaitFacts)
 	skeletonTargets = append(skeletonTargets,
 		skelTarget{Name: "C18.taskHandleHookRun", File: "pkg/shell-operator/operator.go", Recv: "ShellOperator", Func: "taskHandleHookRun",
 			Calls: []string{"RateLimitWait", "handleRunHook", "combineBindingContextForHook"}},
@@ -190,4 +190,75 @@ func c18LimiterFacts(l *leanDefs) {
 	sort.Strings(tunes)
 	l.def("c18LimiterUses", "List String", leanStrList(uses), src)
 	l.def("c18LimiterTuners", "List String", leanStrList(tunes), src)
+}
+
+// c18WaitFacts (tie T1, fifth wave): the context the wait is given. `c18WaitBody` = every top-level
+// statement of Hook.RateLimitWait (the model `waitCtx … none` was written against a body that hands its
+// ctx to the limiter unchanged); `c18WaitCalls` = every statement of pkg/ and cmd/ (tests and
+// `//go:build verif` files left out) that calls RateLimitWait, as "file:func: statement" (the model
+// was written against one call, with context.Background(): a wait without a deadline never fails).
+func c18WaitFacts(l *leanDefs) {
+	src := "pkg/hook/hook.go RateLimitWait; pkg/**, cmd/** (calls of RateLimitWait)"
+	render := func(n ast.Node) string {
+		var b bytes.Buffer
+		_ = printer.Fprint(&b, fset, n)
+		return strings.Join(strings.Fields(b.String()), " ")
+	}
+	var body, calls []string
+	if fd := findFunc("pkg/hook/hook.go", "Hook", "RateLimitWait"); fd != nil && fd.Body != nil {
+		for _, st := range fd.Body.List {
+			body = append(body, render(st))
+		}
+	}
+	callsIt := func(n ast.Node) bool {
+		found := false
+		ast.Inspect(n, func(x ast.Node) bool {
+			if ce, ok := x.(*ast.CallExpr); ok {
+				if se, ok := ce.Fun.(*ast.SelectorExpr); ok && se.Sel.Name == "RateLimitWait" {
+					found = true
+				}
+			}
+			return !found
+		})
+		return found
+	}
+	for _, top := range []string{"pkg", "cmd"} {
+		_ = filepath.Walk(filepath.Join(repo, top), func(p string, info os.FileInfo, err error) error {
+			if err != nil || info.IsDir() || !strings.HasSuffix(p, ".go") || strings.HasSuffix(p, "_test.go") {
+				return nil
+			}
+			if raw, err := os.ReadFile(p); err != nil || bytes.Contains(raw, []byte("//go:build verif")) || !bytes.Contains(raw, []byte("RateLimitWait")) {
+				return nil
+			}
+			rel, _ := filepath.Rel(repo, p)
+			f := parse(rel)
+			if f == nil {
+				return nil
+			}
+			for _, d := range f.Decls {
+				fd, ok := d.(*ast.FuncDecl)
+				if !ok || fd.Body == nil {
+					continue
+				}
+				ast.Inspect(fd.Body, func(n ast.Node) bool {
+					switch x := n.(type) {
+					case *ast.AssignStmt, *ast.ExprStmt, *ast.ReturnStmt, *ast.DeclStmt, *ast.GoStmt, *ast.DeferStmt:
+						if callsIt(x) {
+							calls = append(calls, fmt.Sprintf("%s:%s: %s", rel, fd.Name.Name, render(x)))
+							return false
+						}
+					case *ast.IfStmt:
+						if x.Cond != nil && callsIt(x.Cond) {
+							calls = append(calls, fmt.Sprintf("%s:%s: if %s", rel, fd.Name.Name, render(x.Cond)))
+						}
+					}
+					return true
+				})
+			}
+			return nil
+		})
+	}
+	sort.Strings(calls)
+	l.def("c18WaitBody", "List String", leanStrList(body), src)
+	l.def("c18WaitCalls", "List String", leanStrList(calls), src)
 }
